@@ -28,6 +28,99 @@ def _stmt_lists(prog):
             yield from walk(f.shadow)
 
 
+def _expr_calls(e, out):
+    if isinstance(e, (list, tuple)):
+        if isinstance(e, tuple) and e and e[0] == "call":
+            out.append(e[1])
+        if isinstance(e, tuple) and e and e[0] == "fnref":
+            out.append(e[1])
+        for x in e:
+            if isinstance(x, (list, tuple)):
+                _expr_calls(x, out)
+
+
+def _expr_vars(e, out):
+    if isinstance(e, list):
+        for x in e:
+            _expr_vars(x, out)
+        return
+    if not isinstance(e, tuple) or not e:
+        return
+    if e[0] == "var":
+        out.append(e[1])
+        return
+    if e[0] == "matche":
+        _expr_vars(e[1], out)
+        for v, b, a in e[2]:
+            sub = []
+            _expr_vars(a, sub)
+            out.extend(x for x in sub if x != b)
+        return
+    for x in e[1:]:
+        if isinstance(x, (tuple, list)):
+            _expr_vars(x, out)
+
+
+def wellscoped(prog):
+    """every variable reference resolves lexically (locals, params, globals, function names)"""
+    glob = set()
+    for m in list(prog.modules) + [prog.main]:
+        glob.update(n for n, _, _, _ in m.globals)
+    fnames = set(f.name for f in prog.all_funcs())
+
+    def block(stmts, scope):
+        scope = set(scope)
+        for s in stmts:
+            k = s[0]
+            used = []
+            if k == "let":
+                _expr_vars(s[4], used)
+            elif k == "set":
+                used.append(s[1])
+                _expr_vars(s[2], used)
+            elif k in ("if", "while"):
+                _expr_vars(s[1], used)
+            elif k == "for":
+                _expr_vars(s[2], used)
+                _expr_vars(s[3], used)
+            elif k in ("return", "print", "assert", "expr", "match"):
+                _expr_vars(s[1], used)
+            for u in used:
+                if u not in scope and u not in glob and u not in fnames:
+                    return False
+            if k == "let":
+                scope.add(s[1])
+            elif k == "if":
+                if not block(s[2], scope) or (s[3] is not None and not block(s[3], scope)):
+                    return False
+            elif k == "while":
+                if not block(s[2], scope):
+                    return False
+            elif k == "for":
+                if not block(s[4], scope | {s[1]}):
+                    return False
+            elif k == "match":
+                for v, b, body in s[2]:
+                    if not block(body, scope | {b}):
+                        return False
+        return True
+
+    for f in prog.all_funcs():
+        if not block(f.body, set(n for n, _ in f.params)):
+            return False
+        if f.shadow and not block(f.shadow, set()):
+            return False
+    # calls must resolve too (user functions, function-typed variables, builtins)
+    for f in prog.all_funcs():
+        calls = []
+        _expr_calls(f.body, calls)
+        _expr_calls(f.shadow or [], calls)
+        for c in calls:
+            if c not in fnames and c not in gen.BUILTIN_NAMES and not (c[:1] in "vpo" and c[1:].isdigit()):
+                return False
+    return True
+
+
 def _mutable(prog):
     """deep copy with statement tuples turned into lists-of-lists where needed (tuples are immutable, blocks are lists)"""
     return copy.deepcopy(prog)
@@ -41,6 +134,8 @@ def reduce(prog, still_fails, budget=200):
         if calls[0] >= budget:
             return False
         exp = None
+        if not wellscoped(p):
+            return False
         try:
             exp = gen.evaluate(p, max_steps=300000)
         except Exception:
@@ -95,6 +190,11 @@ def reduce(prog, still_fails, budget=200):
                         break
                     cand = _mutable(best)
                     cl = list(_stmt_lists(cand))[li]
+                    if any(st[0] == "return" for st in cl[i:i + chunk]):
+                        i += 1 if chunk == 1 else chunk
+                        if chunk > 1:
+                            continue
+                        continue
                     del cl[i:i + chunk]
                     if ok(cand):
                         best = cand
